@@ -3,6 +3,7 @@ import AnySyncModel.App.Model
 /-! line protocol for area `app` (C20)
   start  <id:r:fi:fr:fc> …      → `<outcome> <events>`
   close  <id:r:fi:fr:fc> …      → `<events>`
+  lookupT <type> <container>/…   (container = `t1+t2:tag,_:tag` — implemented interface ids, `_` = none)
   lookup <name> <container>/<container>/…   (child first; container = `name:tag,name:tag` or `-`)
 -/
 namespace AnySync.Driver.App
@@ -36,6 +37,17 @@ def parseNamed (s : String) : Option Named :=
 def parseContainer (s : String) : Option (List Named) :=
   if s = "-" then some [] else (s.splitOn ",").mapM parseNamed
 
+def parseTyped (s : String) : Option Typed :=
+  match s.splitOn ":" with
+  | [a, b] => do
+    let ts ← if a = "_" then some [] else (a.splitOn "+").mapM (·.toNat?)
+    let t ← b.toNat?
+    pure ⟨ts, t⟩
+  | _ => none
+
+def parseTContainer (s : String) : Option (List Typed) :=
+  if s = "-" then some [] else (s.splitOn ",").mapM parseTyped
+
 def step (line : String) : String :=
   match tokens line with
   | "start" :: rest =>
@@ -50,6 +62,13 @@ def step (line : String) : String :=
     match name.toNat?, (chain.splitOn "/").mapM parseContainer with
     | some n, some ch =>
       match lookup ch n with
+      | some t => s!"found:{t}"
+      | none => "notfound"
+    | _, _ => "bad-op"
+  | ["lookupT", ty, chain] =>
+    match ty.toNat?, (chain.splitOn "/").mapM parseTContainer with
+    | some n, some ch =>
+      match lookupT ch n with
       | some t => s!"found:{t}"
       | none => "notfound"
     | _, _ => "bad-op"
